@@ -47,6 +47,23 @@ def exact_counts(psis_weights, N, rng=None, keep_zero=None):
     return out
 
 
+def rescale_counts(counts, mode_seed):
+    """the fitters normalise by the total, so any positive rescaling of exact probabilities is still exact statistics:
+    mode 0: probabilities (total 1.0); 1: float counts with total 1000; 2: total 7.0; 3: exact integer counts when all
+    probabilities are multiples of 2^-k (stabilizer-like statistics), else total 8192.0"""
+    mode = mode_seed % 4
+    if mode == 0:
+        return counts
+    if mode == 3:
+        for k in range(0, 14):
+            sc = 1 << k
+            if all(abs(v * sc - round(v * sc)) < 1e-13 for v in counts.values()):
+                return {b: int(round(v * sc)) * 3 for b, v in counts.items()}
+        return {b: v * 8192.0 for b, v in counts.items()}
+    sc = 1000.0 if mode == 1 else 7.0
+    return {b: v * sc for b, v in counts.items()}
+
+
 def measurement_ops(qc):
     """instruction list of a measurement circuit without barrier / measure"""
     return [o for o in libif.ops_of(qc) if o[0] not in dense.SKIP]
